@@ -7,6 +7,7 @@
   script is part of the state `s`), not over the first N calls.
 -/
 import LabreaModel.CacheLemmas
+import LabreaModel.DatasetTransparency
 namespace Labrea
 
 variable (env : Env) (run : Run) (x : Expr) (c : Nat) (o : V)
@@ -132,6 +133,54 @@ theorem blind_get_fails (hk : env.cacheKind c = .scripted) (s s1 : St) (hb : bli
     backendGet env run x c o s =
       some (.error cacheGetFailure, { s1 with events := Event.cacheOp c "get" .none "blind" :: s1.events }) := by
   simp [backendGet, hk, bind_run, hb, emit_run, raise_run]
+
+
+/-! ### The full statement, for all histories and all fault scripts -/
+
+/-- **faulty_backend_transparent.** A node cached in an UNRELIABLE backend (scripted: at every call it may report a miss,
+    claim an entry it then fails to retrieve, forget the entry, fail to store, or answer without looking at the request
+    at all), whose sub-computations leave that backend's entries alone and for which equal fingerprints imply equal
+    outcomes: after ANY history of evaluations and under ANY fault script — the script is part of the state, nothing is
+    assumed about it — every evaluation returns the uncached outcome `den o`.  A faulty backend costs recomputation,
+    never a wrong value or a failure. -/
+theorem faulty_backend_transparent {env : Env} {run : Run} {x : Expr} {c : Nat} {D : V → Prop}
+    {fp : V → V} {den : V → Except Err V} (H : FingerprintSoundF env run x c D fp den)
+    (hist : List V) (hD : ∀ o ∈ hist, D o) (s : St) (hempty : s.cacheEntries c = [])
+    (o : V) (ho : D o) (s1 : St)
+    (hs : (hist.foldl (fun (st : Option St) oi => st.bind fun t =>
+        (cachedOp env run x c .evaluate oi t).map Prod.snd) (some s)) = some s1)
+    (r : Except Err V) (s2 : St) (h : cachedOp env run x c .evaluate o s1 = some (r, s2)) : r = den o :=
+  faulty_history_transparent H hist hD s (storeInv_empty c D fp den s hempty) o ho s1 hs r s2 h
+
+/-- … and the evaluation always terminates with that outcome (total correctness): whatever the script holds -/
+theorem faulty_backend_total {env : Env} {run : Run} {x : Expr} {c : Nat} {D : V → Prop}
+    {fp : V → V} {den : V → Except Err V} (H : FingerprintSoundF env run x c D fp den)
+    (o : V) (ho : D o) (s : St) (hinv : StoreInv c D fp den s) :
+    ∃ s', cachedOp env run x c .evaluate o s = some (den o, s') ∧ StoreInv c D fp den s' := by
+  obtain ⟨r, s', h1, h2, h3⟩ := (t_cached_evaluate H o ho).run s hinv
+  exact ⟨s', h3 ▸ h1, h2⟩
+
+/-- instance: a real dataset (`@dataset def d(p = Option(key)): return body(p=p)`) over a faulty backend, every key /
+    body / fuel, every history of dictionaries holding an integer under the key, every fault script -/
+theorem dataset_faulty_backend_transparent {env : Env} {ovid cid : Nat} {key pname body : String} {out : Int → V}
+    (H : SimpleDataset env ovid cid key pname body out) (hk : env.cacheKind cid = .scripted) (n id : Nat) (msg : String)
+    (hist : List V) (hD : ∀ o ∈ hist, DsDict key o) (s : St) (hempty : s.cacheEntries cid = [])
+    (o : V) (ho : DsDict key o) (s1 : St)
+    (hs : (hist.foldl (fun (st : Option St) oi => st.bind fun t =>
+        (cachedOp env (ev env (n + 9)) (dsInner id ovid msg) cid .evaluate oi t).map Prod.snd) (some s)) = some s1)
+    (r : Except Err V) (s2 : St)
+    (h : cachedOp env (ev env (n + 9)) (dsInner id ovid msg) cid .evaluate o s1 = some (r, s2)) :
+    r = .ok (out (intOf key o)) :=
+  faulty_backend_transparent (dataset_fingerprint_soundF H hk n id msg) hist hD s hempty o ho s1 hs r s2 h
+
+/-- non-vacuity: an environment of that shape with a faulty backend exists, and the dictionaries `{'A': i}` qualify -/
+def c17dEnv : Env :=
+  { β := fun f a k => .ok (.app f a k), binds := fun _ _ => .error "x",
+    ov := fun _ => { dispatch := .value 20 .missing, table := [], dflt := some (dsBody "A" "n" "load") },
+    ds := fun _ => default, cacheKind := fun _ => .scripted }
+
+example : SimpleDataset c17dEnv 1 0 "A" "n" "load" (fun i => .app "load" [] [("n", .int i)]) ∧ c17dEnv.cacheKind 0 = .scripted :=
+  ⟨{ subst := rfl, logOn := rfl, cacheOn := rfl, ov := rfl, β := fun _ => rfl }, rfl⟩
 
 /-! non-vacuity: under the script [miss, behave(set), failGet(read-back)] the evaluation still returns the value -/
 def c17Env : Env :=
